@@ -68,6 +68,8 @@ var portionSets = [][][2]int{
 	{{1, 2}, {1, 2}}, {{1, 3}, {2, 3}}, {{1, 3}, {1, 3}, {1, 3}}, {{1, 4}, {3, 4}}, {{2, 5}, {3, 5}},
 	{{1, 1}}, {{1, 7}, {2, 7}, {4, 7}}, {{1, 8}, {3, 8}, {1, 2}}, {{0, 1}, {1, 1}}, {{1, 10}, {9, 10}},
 	{{1, 6}, {1, 3}, {1, 2}}, {{3, 10}, {3, 10}, {2, 5}},
+	// zero shares in every position (a zero share listed early still receives a left-over unit)
+	{{0, 1}, {1, 3}, {2, 3}}, {{1, 2}, {0, 5}, {1, 2}}, {{1, 3}, {2, 3}, {0, 1}}, {{0, 3}, {0, 1}, {1, 1}},
 }
 
 func (g *gen) varsOf(t string) []string {
@@ -427,6 +429,11 @@ func (g *gen) declareVars(c *Case) {
 			}
 			as := g.expr("asset", "", 0)
 			origin = J{"k": "call", "name": "balance", "args": jl(acc, as)}
+			if r.Intn(3) == 0 {
+				// the (feature-flagged) overdraft(): reading how far an account is overdrawn must not change what it can give
+				origin = J{"k": "call", "name": "overdraft", "args": jl(acc, as)}
+				c.FlagOvd = true
+			}
 			usable = false // its value is not known to the generator
 			val = J{"t": "none"}
 		case cfg.origins && r.Intn(4) == 0:
@@ -483,6 +490,10 @@ func (g *gen) balances(c *Case) {
 			}
 			c.Bal[a][as] = int64(v)
 		}
+	}
+	if r.Intn(4) == 0 {
+		// the store may hold an entry for @world (a ledger does): it is never asked for and must not matter
+		c.Bal["world"] = map[string]int64{pick(r, g.cfg.assets): int64(pick(r, []int{-1000, 40, 7}))}
 	}
 }
 
@@ -617,6 +628,9 @@ func corpusCfg(name string) genCfg {
 		base.sendAllRate = 0
 		base.maxVars = 2
 		base.dstDepth = 1
+		base.negNums = true
+		base.infix = true
+		base.nums = append([]int{-30, -5}, baseNums...)
 	case "src": // C04: rich source, plain destination
 		base.plainDst = true
 		base.worldVars = true
